@@ -161,6 +161,8 @@ def run_mustcall(ctx):
     table = load_table("must_call.tsv")
     if not res.anchor(bool(table), "tables/must_call.tsv"):
         return res
+    from ..owners import for_crate
+    own = for_crate(lib)
     for key, row in table.items():
         fid, callees = key.split("|", 1)
         alts = [c.strip() for c in callees.split(" || ")]
@@ -169,6 +171,11 @@ def run_mustcall(ctx):
         if not res.anchor(b is not None, fid):
             continue
         gates = {c.bb for c in b.calls if c.callee in alts or c.path in alts}
+        if len(row) > 1 and row[1] == "calls" and not gates:
+            # presence obligation: the call may live in a closure or an extracted helper of the function
+            if any(c.callee in alts or c.path in alts for hb in own.members(fid) for c in hb.calls):
+                res.ok(k, b.where(), "calls it in a closure / helper (presence obligation): " + row[0])
+                continue
         for a in alts:
             if a.startswith("field:"):
                 # a block that reads the named field (of any base) also counts as passing the check
